@@ -141,9 +141,21 @@ def case_psd(T, n, complex_, alg, wrap="dense"):
         d = T.arr("d", (2, ), dt if not complex_ else 'float64', positive=True)
         A = cola.ops.Kronecker(A, cola.PSD(cola.ops.Diagonal(d)))
         Mfull = np.kron(K.raw(T, Am), np.diag(K.raw(T, d)))
+    elif wrap == "sum":
+        # PSD + PSD (a Sum: no structural slogdet rule, inherits PSD)
+        d = T.arr("d", (n, ), 'float64', positive=True)
+        A = A + cola.PSD(cola.ops.Diagonal(d))
+        Mfull = K.raw(T, Am) + np.diag(K.raw(T, d))
+    elif wrap == "nodispatch":
+        A = cola.PSD(cola.no_dispatch(cola.ops.Dense(Am)))
+        Mfull = K.raw(T, Am)
     else:
         Mfull = K.raw(T, Am)
-    if alg == "Cholesky":
+    if alg == "LU":
+        # an operator declared PSD may still be sent through the pivoted LU
+        check_slogdet(T, "slogdet(LU)", A, Mfull, lambda: cola.linalg.slogdet(A, LU()))
+        T.note({"A": str(type(A).__name__)})
+    elif alg == "Cholesky":
         check_slogdet(T, "slogdet(Cholesky)", A, Mfull, lambda: cola.linalg.slogdet(A, Cholesky()))
     else:
         check_slogdet(T, "slogdet()", A, Mfull, lambda: cola.linalg.slogdet(A))
@@ -270,6 +282,10 @@ def cases(tier, seed):
             out.append((f"psd:n{n}{'c' if cx else ''}", case_psd, dict(n=n, complex_=cx, alg="default")))
             out.append((f"psd-chol:n{n}{'c' if cx else ''}", case_psd, dict(n=n, complex_=cx, alg="Cholesky")))
     out.append(("psd-kron:n2", case_psd, dict(n=2, complex_=False, alg="default", wrap="kron")))
+    for n, cx, wrap in ((1, False, "dense"), (2, False, "dense"), (2, True, "dense"), (2, False, "sum"), (2, True, "sum"), (2, False, "nodispatch"), (2, False, "kron")):
+        out.append((f"psd-LU:{wrap}:n{n}{'c' if cx else ''}", case_psd, dict(n=n, complex_=cx, alg="LU", wrap=wrap), dict(partial_ok=True)))
+    out.append(("psd-sum:n2", case_psd, dict(n=2, complex_=False, alg="default", wrap="sum")))
+    out.append(("psd-chol-sum:n2c", case_psd, dict(n=2, complex_=True, alg="Cholesky", wrap="sum")))
     for which in ("lanczos", "arnoldi"):
         for n, m, sp in ((2, None, "any"), (2, None, "small"), (2, None, "large"), (3, None, "any"), (3, None, "small"), (2, 4, "small"), (3, 5, "any")):
             out.append((f"krylov:{which}:n{n}" + (f"m{m}" if m else "") + f":{sp}", case_krylov_logdet,
